@@ -176,9 +176,10 @@ def sun_zenith_angle(utc_time, lon, lat):
     lon,lat in degrees.
     The sun zenith angle returned is in degrees.
     """
-    sza = np.rad2deg(np.arccos(cos_zen(utc_time, lon, lat)))
-    if not isinstance(lon, float):
-        sza = sza.astype(lon.dtype)
+    csza = cos_zen(utc_time, lon, lat)
+    sza = np.rad2deg(np.arccos(csza))
+    if not isinstance(csza, float):
+        sza = sza.astype(csza.dtype)
     return sza
 
 
@@ -245,7 +246,8 @@ def _float_to_sibling_result(result_to_convert, template_result):
 
     """
     if isinstance(template_result, float):
-        return result_to_convert
+        # python float or numpy float scalar: keep the sibling's scalar type
+        return type(template_result)(result_to_convert)
     # get any array like object that might be wrapped by our template (ex. xarray DataArray)
     array_like = template_result if hasattr(template_result, "__array_function__") else template_result.data
     array_convert = np.asarray(result_to_convert, like=array_like)
